@@ -16,6 +16,7 @@ import (
 	"errors"
 	"fmt"
 	"math"
+	"slices"
 	"strconv"
 	"strings"
 	"sync"
@@ -474,16 +475,18 @@ func (c *changeCache) DocChanged(event sgbucket.FeedEvent, docType DocumentType)
 	// so that they are included in sequence buffering.
 	// If one of these sequences represents a removal from a channel then set the LogEntry removed flag
 	// and the set of channels it was removed from
+	// The sequences this update allocated and did not use were handled above. They are not necessarily higher than
+	// every earlier recent sequence: a concurrent writer's revision may have taken a sequence allocated after them.
 	currentSequence := syncData.Sequence
-	if len(syncData.UnusedSequences) > 0 {
-		currentSequence = syncData.UnusedSequences[0]
-	}
 
 	if len(syncData.RecentSequences) > 0 {
 		nextSequence := c.getNextSequence()
 		seqsCached := make([]uint64, 0, len(syncData.RecentSequences))
 
 		for _, seq := range syncData.RecentSequences {
+			if slices.Contains(syncData.UnusedSequences, seq) {
+				continue
+			}
 			// seq < currentSequence means the sequence is not the latest allocated to this document
 			// seq >= nextSequence means this sequence is a pending sequence to be expected in the cache
 			// the two conditions above together means that the cache expects us to run processEntry on this sequence as its pending
